@@ -55,7 +55,7 @@ Proof.
   set (s2 := s1 <| sell_orders := delete id (sell_orders s1) |>).
   assert (Hd : del_ord id s1 s2) by reflexivity.
   assert (Hso : sell_orders s1 = sell_orders s) by (rewrite Hw; reflexivity).
-  split; [apply Inv_core_split; split; [eapply sk_del_ord; eassumption|]; split|split].
+  split; [apply Inv_core_split; split; [eapply sk_del_ord; eassumption|]; split|split; [|split]].
   - eapply cons_off_elim; [eapply cons_off_orders; [| | | |apply cons_off_intro; exact Hcons1] | |]; try reflexivity.
   - pose proof (esc_off_del_ord _ _ _ _ Hd Hesc1) as Hf. eapply esc_off_elim; [exact Hf|].
     intros a0 k0. cbv beta. rewrite Hso, Ho. rewrite ofun_cases. unfold bump2. rewrite Hu.
@@ -63,6 +63,8 @@ Proof.
   - eapply mframe_trans; [exact Hmf1|]. apply mframe_triv; try reflexivity.
   - unfold wr_bal in Hw. subst s1. unfold s2. apply Inv_orders_sub; try reflexivity.
     intros id0 o0 H0. cbn in H0. apply lookup_delete_Some in H0. apply H0.
+  - apply Inv_qty_sub. intros id0 o0 H0. unfold s2 in H0. cbn in H0. rewrite Hso in H0.
+    apply lookup_delete_Some in H0. apply H0.
 Qed.
 
 (* ------------------------------------------------------------------ *)
@@ -75,10 +77,10 @@ Proof.
 Qed.
 
 Lemma sell_one_step e seller s ids o s' ids' :
-  Inv_core s -> vb_sell_req o = true ->
+  Inv_core s -> Inv_bound s -> vb_sell_req o = true ->
   sell_one e seller (s, ids) o = LOk (s', ids') -> step_ok s s'.
 Proof.
-  intros Hcore Hvb H. unfold sell_one in H.
+  intros Hcore Hbound Hvb H. unfold sell_one in H.
   lstep H as p Hp. destruct p as [bk ba].
   lstep H as p2 Hp2. destruct p2 as [abbrev ct].
   lstep H as ask Hask.
@@ -92,23 +94,30 @@ Proof.
   destruct (gocm_spec _ _ _ _ _ Eg) as (Hs1 & (mk & Hmk & Hmkct & Hmkd) & Hgrow).
   pose proof (markets_change_fields _ _ Hs1) as (F1 & F2 & F3 & F4 & F5 & F6 & F7 & F8 & F9).
   pose proof (Inv_core_core_eq _ _ (markets_change_core_eq _ _ Hs1) Hcore) as Hcore1.
+  pose proof (te_bound s1 seller bk Hcore1 (Inv_bound_core_eq _ _ (markets_change_core_eq _ _ Hs1) Hbound)) as Hte.
   apply Inv_core_split in Hcore1. destruct Hcore1 as (Hsk1 & Hcons1 & Hesc1).
   pose proof Hsk1 as (_ & Hscale1 & Hkeys1).
   destruct (escrow_spec _ _ _ _ _ Hscale1 Hqok Hs2) as (b & b' & Hb & Hw & Hok & Ht & He & Hr).
   destruct (move_row _ _ _ _ (- U q) _ _ Hsk1 Hcons1 Hesc1 Hb Hw Hok ltac:(lia) ltac:(lia) Hr)
     as (Hsk2 & Hcons2 & Hesc2 & Hmf2).
+  (* the stored quantity is the plain rendering of q, which parses again *)
+  assert (Hqb : U q < BOUND).
+  { rewrite (get_balance_Some _ _ _ _ Hb) in Hte. destruct Hok as (Hok1 & _ & _).
+    destruct (Hscale1) as (Hrows & _). destruct (Hrows _ _ Hb) as (_ & _ & Hbe).
+    pose proof (in_ok_U_nonneg _ (stored_in_ok _ Hok1)). pose proof (in_ok_U_nonneg _ (stored_in_ok _ Hbe)). lia. }
+  destruct (reparse_units q Hqok Hqb) as (q' & Hq'p & Hq'ok & HUq' & Hq'e).
   assert (Hso2 : sell_orders s2 = sell_orders s1) by (rewrite Hw; reflexivity).
   assert (Hsq2 : sell_order_seq_id s2 = sell_order_seq_id s1) by (rewrite Hw; reflexivity).
   assert (Hbt2 : batches s2 = batches s1) by (rewrite Hw; reflexivity).
   set (id := (sell_order_seq_id s2 + 1)%N).
-  set (o' := {| so_seller := seller; so_batch_key := bk; so_quantity := sl_quantity o; so_market_id := mid;
+  set (o' := {| so_seller := seller; so_batch_key := bk; so_quantity := to_string q; so_market_id := mid;
                 so_ask_amount := c_amount ask; so_disable_auto_retire := sl_disable_auto_retire o;
                 so_expiration := sl_expiration o; so_maker := true |}).
   set (s3 := s2 <| sell_orders := <[id := o']> (sell_orders s2) |> <| sell_order_seq_id := id |>).
-  assert (Hoo : order_ok o') by (exists q; cbn [so_quantity o']; tauto).
-  assert (Hou : order_units o' = U q) by (apply order_units_parse; exact Hparse).
+  assert (Hoo : order_ok o') by (exists q'; cbn [so_quantity o']; split; [exact Hq'p | split; [exact Hq'ok | lia]]).
+  assert (Hou : order_units o' = U q) by (rewrite (order_units_parse o' q' Hq'p); exact HUq').
   assert (Hfresh : sell_orders s2 !! id = None) by (apply next_order_fresh; apply Hsk2).
-  split; [apply Inv_core_split; split; [|split]|split].
+  split; [apply Inv_core_split; split; [|split]|split; [|split]].
   - eapply (sk_new_ord o' s2 s3); [reflexivity | exact Hoo | | exact Hsk2].
     cbn [so_batch_key o']. rewrite Hbt2, F5, Hba. eauto.
   - eapply cons_off_elim; [eapply (cons_off_orders s2 s3); [| | | |apply cons_off_intro; exact Hcons2] | |]; reflexivity.
@@ -134,22 +143,26 @@ Proof.
         split; [exact Hmk|]. split; [exact Hba|].
         rewrite (ct_abbrev_of_denom_ext s s3 _ Hc3 Ht3). exact Hp2.
       * right. exists id0, o0. rewrite Hso2, F4 in H0. split; [exact H0 | unfold order_sim; tauto].
+  - apply Inv_qty_transfer. intros id0 o0 H0. unfold s3 in H0. cbn in H0. apply lookup_insert_Some in H0.
+    destruct H0 as [[_ <-]|[_ H0]].
+    + left. exists q'. cbn [so_quantity o']. tauto.
+    + right. exists id0, o0. rewrite Hso2, F4 in H0. tauto.
 Qed.
 
 Lemma h_sell_step e s seller orders s' r evs :
-  Inv_core s -> forallb vb_sell_req orders = true ->
+  Inv_core s -> Inv_bound s -> forallb vb_sell_req orders = true ->
   h_sell e s seller orders = LOk (s', r, evs) -> step_ok s s'.
 Proof.
-  intros Hcore Hvb H. unfold h_sell in H. lstep H as acc Hacc. destruct acc as [s1 ids].
+  intros Hcore Hbound Hvb H. unfold h_sell in H. lstep H as acc Hacc. destruct acc as [s1 ids].
   unfold ret in H. inversion H; subst s' r evs; clear H.
-  pose (Pr := fun acc : state * list N => Inv_core acc.1 /\ step_ok s acc.1).
+  pose (Pr := fun acc : state * list N => Inv_core acc.1 /\ Inv_bound acc.1 /\ step_ok s acc.1).
   assert (HP : Pr (s1, ids)).
   { apply (lfold_inv Pr (sell_one e seller) orders (s, []) (s1, ids)); [| |exact Hacc].
-    - intros [a ia] x [a' ia'] Hin [P1 P2] Hf. cbn [fst] in *.
+    - intros [a ia] x [a' ia'] Hin (P1 & P2 & P3) Hf. cbn [fst] in *.
       assert (Hx : vb_sell_req x = true) by (eapply forallb_forall in Hvb; [exact Hvb | exact Hin]).
-      pose proof (sell_one_step _ _ _ _ _ _ _ P1 Hx Hf) as Hs.
-      split; [apply Hs | eapply step_ok_trans; eassumption].
-    - split; [exact Hcore | apply step_ok_refl; exact Hcore]. }
+      pose proof (sell_one_step _ _ _ _ _ _ _ P1 P2 Hx Hf) as Hs.
+      split; [apply Hs|]. split; [eapply mframe_bound; [apply Hs | exact P2] | eapply step_ok_trans; eassumption].
+    - split; [exact Hcore|]. split; [exact Hbound | apply step_ok_refl; exact Hcore]. }
   apply HP.
 Qed.
 
@@ -164,10 +177,11 @@ Proof.
   intros H Hc.
   assert (Hmo : market_only s s').
   { unfold market_only, mk_frame. destruct s, s'. cbn in *. inversion H. subst. reflexivity. }
-  split; [|split].
+  split; [|split; [|split]].
   - eapply Inv_core_core_eq; [|exact Hc]. rewrite H. unfold core_eq. cbn. tauto.
   - apply mframe_triv; [exact Hmo | | |]; rewrite H; reflexivity.
   - apply Inv_orders_sub; try (rewrite H; reflexivity). intros id o. rewrite H. cbn. tauto.
+  - apply Inv_qty_sub. intros id o. rewrite H. cbn. tauto.
 Qed.
 
 Lemma add_allowed_denom_step e s a bd dd ex s' r evs :
